@@ -24,15 +24,18 @@ def sh(cmd, cwd=None, env=None, timeout=1800):
     return p.returncode, p.stdout + p.stderr
 
 
+TIER = 'thorough' if '--thorough' in sys.argv else 'quick'
+
+
 def run_check(prop, wt):
-    rc, o = sh(f'timeout 600 /venv/bin/python -m omstatic {prop} --tier quick --no-write', cwd=VERIF,
+    rc, o = sh(f'timeout 1500 /venv/bin/python -m omstatic {prop} --tier {TIER} --no-write', cwd=VERIF,
                env=dict(OMSTATIC_REPO=wt, PYTHONPATH=VERIF))
     viol = set()
     for l in o.splitlines():
         m = re.match(r'  violation rule=(\S+) (\S+?):\d+ in (.*?): (.*)', l)
         if m:
             viol.add(m.groups())
-    errs = [l[:300] for l in o.splitlines() if l.startswith('ANALYSIS-ERROR')]
+    errs = [l[:400] for l in o.splitlines() if l.startswith('ANALYSIS-ERROR')]
     return rc, viol, errs
 
 
